@@ -8,6 +8,13 @@ TRUST = ("TLC; the reading of MCNP/TRIPOLI-4 semantics written down in DESIGN.md
          "(harness/vt4/shim.py) standing in for TatSu; the .t4 tokenizer and numeric SURF evaluator "
          "(harness/vt4/t4file.py); the concretiser that spells abstract decks as MCNP text")
 CHECKS = {
+ 'C18': dict(cat='model_checking', ref='6/C18',
+   text=("Session.tla enumerates every history of Convert(deck, options) calls up to length 3 over 6 decks (plain, FILL with "
+         "cache reuse, same numbers with other definitions under the same transformations, lattice with --lattice, LIKE-BUT, "
+         "one that raises) x 3 option sets; histories are replayed in one interpreter and TraceSession.tla compares every output "
+         "with the table of outputs from fresh processes, itself required to be identical under 3 hash seeds; input file and "
+         "directory are checked to be untouched."),
+   technique='sequential-object TLA+ spec (Session.tla) enumerated by TLC; histories replayed into the real entry point and validated by TLC (TraceSession.tla)'),
  'C17': dict(cat='fault_enumeration', ref='6/C17',
    text=("Faults.tla enumerates every fault record (class, site, variant) from its tables of what MCNP admits (entry counts of "
          "all surface mnemonics and macrobodies, facets per body, FILL-array length, IMP cards, material signs, --lattice "
